@@ -315,6 +315,10 @@ def reference(spec, graph):
                     if g in e:
                         (h,) = tuple(e - {g}) if len(e) == 2 else (g,)
                         at = atoms[h - 1]
+                        # the target inherits the residue names the link states for all its atoms
+                        want_rn = tgt.get("resname") or link.get("resname_all")
+                        if want_rn and at["resname"] not in str(want_rn).split("|"):
+                            continue
                         if at["resid"] == want_resid and at["name"] == tgt["name"]:
                             veto = True
             if veto:
